@@ -770,7 +770,7 @@ def run(ctx):
             seen.add(v['what'])
             shrink_violation(ctx, U, fresh, f1_fixed, v)
     if not ctx.searching and not ctx.violations and not ctx.disagreements and ctx.driver_ok:
-        floor = {'F26_seen': 1, 'merge_ok': 1, 'evaluate_elemental': 20, 'evaluate_plain': 20, 'decompose_ok': 20, 'estimate_ok': 20}
+        floor = {'F26_seen': 1, 'evaluate_elemental': 6, 'evaluate_plain': 6, 'decompose_ok': 10, 'estimate_ok': 10}
         for k, v in floor.items():
             if ctx.stats.get(k, 0) < v:
                 raise common.MachineryError('generator reach below floor: %s = %d' % (k, ctx.stats.get(k, 0)))
